@@ -91,7 +91,16 @@ class ShapeFlow:
                 for st in walk_local(f.node):
                     if isinstance(st, ast.Assign) and len(st.targets) == 1 and is_self_attr(st.targets[0], attr):
                         found = True
-                        out |= self.shape(st.value, {}, depth + 1)
+                        v = st.value
+                        if isinstance(v, ast.Name):
+                            # a local (e.g. the result variable of an inlined helper): the shapes of everything assigned to it in that function
+                            defs = [x.value for x in walk_local(f.node) if isinstance(x, ast.Assign) and len(x.targets) == 1 and isinstance(x.targets[0], ast.Name)
+                                    and x.targets[0].id == v.id]
+                            if defs:
+                                for d in defs:
+                                    out |= self.shape(d, {}, depth + 1) if not isinstance(d, ast.Name) else {OTHER}
+                                continue
+                        out |= self.shape(v, {}, depth + 1)
         res = out if found else {OTHER}
         cache[attr] = res
         return set(res)
